@@ -461,7 +461,7 @@ func checkC13(tier, replay string) int {
 		"States that are identical in all files, device content, observation summary and step number are explored once "+
 		"(exact-state memoisation, no abstraction). After every event the real missing-approve is run. "+
 		"A node is non-trivial if at least one conclusive observation (approve OK or compare) lies in its history; distinct = distinct history. "+
-		"Additionally every byte-offset truncation of every distinct status file content seen is checked.", depth, c13Events)
+		"Additionally every byte-offset truncation of every distinct status file content seen is checked, and the real do-approve is run against the CLI simulator (ASA, IOS) while the link 'current' is switched to a policy with other code at the schedule points after-lock and before-status-write.", depth, c13Events)
 	rep.Assumptions = []string{
 		"do-approve => status.SetApprove(failed) / status.SetCompare(changed||errors), validated by the realistic tier of C09/C12 runs that compare status files written by the real do-approve",
 		"status damage family: deleted, empty, truncated, overwritten with non-JSON bytes; forged valid JSON is outside the claim",
@@ -604,6 +604,8 @@ func checkC13(tier, replay string) int {
 		visit(w, s)
 		explore(w, s, depth-2)
 	})
+	// Interleavings of a real do-approve with a policy switch.
+	c13Interleavings(env, rep)
 	// Truncation of every distinct status content at every byte offset.
 	var stKeys []string
 	for k := range statusSeen {
